@@ -136,6 +136,21 @@ Record peer := mkP { p_self : bool; p_reach : bool; p_stream : Z -> list elem }.
 
 Definition dummy_peer : peer := mkP true false (fun _ => []).
 
+(* A transient failure of the raw store: the inner Put of the first packet of round r returns an
+   error (I/O error, or a context cancelled while tryNode stores the beacon). appendStore and
+   schemeStore move their [last] only after the inner Put succeeded, tryNode returns false: the
+   node is left exactly as if the stream had ended before that packet. (Meant for a round above
+   the head: a packet that is refused anyway also ends tryNode with false.) *)
+Fixpoint fail_put_of (r : Z) (l : list elem) : list elem :=
+  match l with
+  | [] => []
+  | Pkt m b :: t => if b_round b =? r then [Close] else Pkt m b :: fail_put_of r t
+  | e :: t => e :: fail_put_of r t
+  end.
+
+Definition with_put_failure (r : Z) (p : peer) : peer :=
+  mkP (p_self p) (p_reach p) (fun f => fail_put_of r (p_stream p f)).
+
 Inductive tn_res := TnOk | TnFail | TnBlocked.
 Record tn_out := mkTn { tn_r : tn_res; tn_st : store; tn_ws : list beacon }.
 
